@@ -288,6 +288,29 @@ def chain_trace(rng):
     return tr
 
 
+def rename_join_trace(rng):
+    """Focused history: a copy of the list with its join key renamed (new dicts), then a join of the original with it
+    on differently named keys: the right-hand operand is left exactly as it was - items, flags, no warning."""
+    init = [{"a": rng.choice([0, 1]), "b": rng.choice([-1, 0, 1])} for _ in range(rng.randint(1, 3))]
+    s = Session(init, False)
+    tr = {"init": {"items": [to_abs_nested(x) for x in s.keep], "lists": [[s.ids[id(it)] for it in list.__iter__(s.lists[0])]]},
+          "nested": False, "steps": []}
+
+    def do(e):
+        e["obs"] = s.step(e)
+        tr["steps"].append(e)
+        return not e["obs"]["err"]
+    ok = do({"x": 1, "o": 0, "a": {"op": "deepcopy"}})                                   # list 2: the left-hand side to be
+    ok = ok and do({"x": 1, "o": 0, "a": {"op": "select", "keys": ["a"]}})              # list 3: key only
+    ok = ok and do({"x": 3, "o": 0, "a": {"op": "rename", "pairs": [["aa", "a"]]}})     # list 4: key renamed to aa
+    ok = ok and do({"x": 4, "o": 0, "a": rng.choice([{"op": "modify", "k": "x", "g": {"f": "const", "v": 1}}, {"op": "copy"}])})   # list 5
+    if ok:
+        right = rng.choice([4, 5])
+        do({"x": 2, "o": right, "a": {"op": rng.choice(["inner", "left", "semi", "anti"]), "ren": True}})
+        do({"x": right, "o": 0, "a": {"op": "copy"}})                                   # the next use of the right-hand operand
+    return tr
+
+
 GEN_INIT = [{"a": 0, "b": -1}, {"a": 1, "b": 1}, {"a": 0}]      # LoDSMEvents!InitSt
 
 
@@ -336,6 +359,7 @@ def run(ctx):
     traces = [random_trace(rng, rng.randint(2, 7)) for _ in range(ntr)]
     traces += [deepcopy_trace(rng) for _ in range(ntr // 4)]
     traces += [chain_trace(rng) for _ in range(ntr // 5)]
+    traces += [rename_join_trace(rng) for _ in range(ntr // 8)]
     # spec -> code: every behaviour of the session machine enumerated by TLC (LoDSMGen) is replayed call by call
     gcfg = "INIT Init\nNEXT Next\nINVARIANT Inv\nCONSTANTS\n  MaxLists = %d\n  MaxItems = 12\n  PreEvents = {%s}\n"
     rg = ctx.model_check("LoDSMGen", cfg_text=gcfg % (3, '"", "keys", "pluck", "poke"'), timeout=3000)
